@@ -161,4 +161,28 @@ class TreeSet:
                 planted.append(stray)
                 self.planted_desync += 1
                 nd += 1
+            # the library's OWN sidecars (hidden '.<name>.data.json' next to the entity, location from the live configuration): for a
+            # folder entity at a free-text level the sidecar's name conforms textually to that level's template - it is still no entity
+            try:
+                from pathlib import Path
+                from spil import conf as _conf
+                ns = 0
+                order = list(ents)
+                rng.shuffle(order)
+                for e in order:
+                    if ns >= 6:
+                        break
+                    p, is_file = self.path_of(c, e)
+                    if p is None or not os.path.exists(p):
+                        continue
+                    dp = str(_conf.get_data_json_path(Path(p)))
+                    if os.path.exists(dp) or not os.path.basename(dp).startswith("."):
+                        continue
+                    with open(dp, "w") as f:
+                        f.write('{"comment": "planted"}')
+                    planted.append(dp)
+                    self.planted_sidecars = getattr(self, "planted_sidecars", 0) + 1
+                    ns += 1
+            except ImportError:
+                pass
         return planted
